@@ -1,6 +1,8 @@
 import Driver.Proto
 import Driver.C03
 import Driver.C04
+import Driver.C05
+import Driver.C06
 import Driver.C10
 import Driver.C12
 import Driver.C12Mon
@@ -25,6 +27,8 @@ import Driver.C20Mon
 def suites : List (String × Driver.Suite) :=
   Driver.C03.suites ++
   Driver.C04.suites ++
+  Driver.C05.suites ++
+  Driver.C06.suites ++
   Driver.C10.suites ++
   Driver.C12.suites ++
   Driver.C12Mon.suites ++
